@@ -15,7 +15,7 @@ PROP = dict(
     rule=("1-4 fields from {/size,/kind,goos,pkg,note,.config} with orders {first, alpha, num, fixed list}; 5-40 results whose values come "
           "from unambiguous numeric spellings (12, 1.5, 2k, 1Mi, 3GiB, 1e3, NaN, inf, words), ambiguous ones (x1, 1k2, .., 1m) and words; "
           ".config sub-keys appear late; 1-3 random arrangements of the distinct keys are sorted. Non-trivial = >=4 distinct keys, >=2 "
-          "different order kinds among the flattened fields, and a pair of keys separated only by a later field. NonSingularFields is asked about all keys and adjacent pairs between the pairwise comparisons and the sorts; every Less must stay what it was. Numeric values include plain numbers beyond float32 precision and range and zero-padded integers. Distinct = distinct case JSON."),
+          "different order kinds among the flattened fields, and a pair of keys separated only by a later field. NonSingularFields is asked about all keys and adjacent pairs between the pairwise comparisons and the sorts; every Less must stay what it was. Numeric values include plain numbers beyond float32 precision and range and zero-padded integers. One case in five uses a unit projection (ParseWithUnit; results projected per measurement or as a whole; .unit is a first-observation field). Prefixed numbers followed by a unit word (10Mbit, 2Gbit/s) are numbers; texts without a digit are not. Distinct = distinct case JSON."),
     assumptions=["reference comparator reflects the documented orders"],
     units=[
         R("rapid", "A", "./c09", "TestC09Rapid", (2500, 8), (60000, 16)),
